@@ -305,7 +305,7 @@ def impl_property(arg):
     from ka.interpret import execute
     from ka.eval import EvalEnvironment
     bad = []
-    n = dict(units=len(U.UNITS), plain=0, prefixed=0, no_other=0, refused=0, executed=0, cash=0)
+    n = dict(units=len(U.UNITS), plain=0, prefixed=0, no_other=0, refused=0, cash=0)
     names, symbols = U.NAME_TO_UNIT, U.SYMBOL_TO_UNIT
 
     def spell(u):
@@ -459,6 +459,23 @@ def gen_currency_table(d, rng, k):
     out += adversarial[: 6 + k]
     rng.shuffle(out)
     return "".join("%s,%s,%r\n" % row for row in out)
+
+
+def readme_claims(path):
+    """the documented unit list `name (symbol)` and prefix list `name (sym[/sym], base^exp)`"""
+    units, prefixes = [], []
+    try:
+        txt = open(path, encoding="utf-8").read()
+    except OSError:
+        return None, None
+    for line in txt.splitlines():
+        if line.startswith("* second (s)"):
+            units = re.findall(r"([^\s,()*]+) \(([^()]+)\)", line)
+        if line.startswith("* yotta (Y"):
+            for name, syms, base, exp in re.findall(r"([^\s,()*]+) \(([^(),]+), (\d+)\^(-?\d+)\)", line):
+                for sym in syms.split("/"):
+                    prefixes.append((name, sym, int(base), int(exp)))
+    return units, prefixes
 
 
 # ------------------------------------------------------------------ the check
@@ -661,7 +678,34 @@ def run(ctx):
                     tag, b["op"], nm, b.get("got"), (", want %s" % b["want"]) if b.get("want") else ""),
                     dict(word=nm, text=("1 %s" % nm) if nm else None, detail=b, table=tag))
 
-    stage("live-object sweeps")
+    # ---- (H) the documented list (README.md): every `name (symbol)` names one unit, every prefix its power
+    doc_units, doc_prefixes = readme_claims(os.path.join(C.REPO, "README.md"))
+    doc_checked = 0
+    if doc_units is not None:
+        if not doc_units or not doc_prefixes:
+            rep.notes.append("README.md: documented unit/prefix list not found (format changed); documentation clause not checked")
+        for name, sym in doc_units or []:
+            doc_checked += 1
+            a_, b_ = reg.lookup(name), reg.lookup(sym)
+            if a_[0] != "U" or b_[0] != "U" or a_[1] != b_[1] or a_[2] is not None or b_[2] is not None:
+                culprit = sym if b_[0] != "U" or b_[2] is not None else name
+                rep.violation(dict(op="readme-unit-unresolved", name=culprit),
+                              "README.md documents the unit %s (%s), but %r %s (registered symbol of %s: %r)" % (
+                                  name, sym, culprit, "is not a unit" if reg.lookup(culprit)[0] != "U" else "is another unit",
+                                  name, reg.units[a_[1]]["symbol"] if a_[0] == "U" else None),
+                              dict(word=culprit, text="1 %s" % culprit, documented="%s (%s)" % (name, sym)))
+        tbl = {(p["name"], p["symbol"]): (p["base"], p["exp"]) for p in reg.prefixes}
+        for name, sym, base, exp in doc_prefixes or []:
+            doc_checked += 1
+            if tbl.get((name, sym)) != (base, exp):
+                rep.violation(dict(op="readme-prefix-mismatch", name=name),
+                              "README.md documents the prefix %s (%s, %d^%d), the table has %r" % (name, sym, base, exp, tbl.get((name, sym))),
+                              dict(word=name + "metre", text="1 %smetre to metre" % name))
+        for (name, sym) in tbl:
+            if (name, sym) not in {(n, s_) for n, s_, _, _ in doc_prefixes or []} and doc_prefixes:
+                rep.violation(dict(op="readme-prefix-undocumented", name=name), "prefix %s (%s) is not in README.md's list" % (name, sym),
+                              dict(word=name), found_input=False)
+    stage("live-object sweeps, README")
     # ---- coverage
     samples = []
     for c, t, e in ex_cases[:: max(1, len(ex_cases) // 5)][:5]:
@@ -680,6 +724,7 @@ def run(ctx):
         combined_spellings_with_other_reading=shadowed,
         unusable_spellings={k: [x[0] for x in v][:12] for k, v in unusable.items()},
         checker_items=n_items, failing_items=failing_items[:20],
+        documented_items_checked=doc_checked,
         units=len(reg.units), cash_units=sum(1 for u in reg.units if "cash" in u["quantities"]),
         prefixes=len(reg.prefixes), names=len(reg.names), symbols=len(reg.symbols),
         live_object_sweeps={tag: (pr.get("counts"), pr.get("nbad")) for tag, pr in gen_runs}))
